@@ -377,7 +377,7 @@ fn e_backend(code: u32, flags: u32, size_delta: i32, variant: usize) {
                 assert!(r.a[4] == spec::rd64(&body, 24) && r.a[5] == spec::rd64(&body, 32));
                 assert!(r.fd0 == g::FD_BASE);
                 if n == 2 {
-                    assert!(r.bytes == spec::rd64(&body, 40).to_le_bytes() && r.ret2 == spec::rd64(&body, 48));
+                    assert!(u64::from_le_bytes(r.bytes) == spec::rd64(&body, 40) && r.ret2 == spec::rd64(&body, 48));
                     assert!(r.ret == spec::rd64(&body, 56) ^ spec::rd64(&body, 64).rotate_left(17));
                     assert!(r.fd1 == g::FD_BASE + 1);
                 }
@@ -610,6 +610,61 @@ e_bt!(c08_e_request_cut_19, 8, 8, 19);
 e_bt!(c08_e_vring_addr_cut_12, 9, 40, 12);
 // @harness props=C08 tier=thorough reach=off timeout=400 bound="handle_request: SET_FEATURES (8-byte body), stream ends at offset 15; body and negotiation words symbolic" stubs="vmm-sys-util raw_recvmsg/raw_sendmsg (ghost stream socket), libc::close + OwnedFd::drop, handle_alloc_error"
 e_bt!(c08_e_set_features_cut_15, 2, 8, 15);
+
+// =============================================================== descriptors in the wrong place (C09)
+/// Descriptors attached to the BODY segment of a request (the protocol carries them with the first byte of
+/// the message only).  Whatever the library decides to do with such a message, every descriptor the kernel
+/// installed must end up closed or handed to the handler - and the call must not block.
+fn e_backend_fds_on_body(code: u32, size: usize) {
+    let v: u64 = kani::any();
+    let av: u64 = kani::any();
+    let ap: u64 = kani::any();
+    let b0: u64 = kani::any();
+    let nfds: usize = kani::any();
+    kani::assume(nfds >= 1 && nfds <= 2);
+    let mut h = mk_handler(v, av, ap);
+    // SAFETY: single-threaded harness, ghost state is plain data
+    unsafe {
+        g::put_hdr(0, code, spec::F_VERSION_1, size as u32);
+        g::put64(12, b0);
+        g::G.rx_len = 12 + size;
+        g::G.rx_closed = true;
+        g::G.rx_nfds = nfds;
+        g::G.rx_fd_call = 2; // second receive call = the body segment
+    }
+    Rec::script();
+    let res = h.handle_request();
+    kani::cover!(res.is_err() || res.is_ok());
+    std::mem::forget(res);
+    // SAFETY: reading ghost state
+    unsafe {
+        assert!(!g::G.blocked, "C09/C08: must not block");
+        assert!(!g::G.double_close, "C09: double close");
+        let mut k = 0;
+        while k < 2 {
+            assert!(g::G.fd_state[k] != g::FD_OPEN || g::G.fd_owned[k], "C09: a descriptor that arrived on the body segment was neither closed nor handed to the handler");
+            k += 1;
+        }
+    }
+}
+macro_rules! e_bf {
+    ($name:ident, $code:expr, $size:expr) => {
+        #[kani::proof]
+        #[kani::unwind(5)]
+        #[kani::stub(vmm_sys_util::sock_ctrl_msg::raw_recvmsg, g::ghost_recvmsg)]
+        #[kani::stub(vmm_sys_util::sock_ctrl_msg::raw_sendmsg, g::ghost_sendmsg)]
+        #[kani::stub(libc::close, g::ghost_close)]
+        #[kani::stub(<std::os::fd::OwnedFd as std::ops::Drop>::drop, g::ghost_ownedfd_drop)]
+        #[kani::stub(std::alloc::handle_alloc_error, g::ghost_alloc_error)]
+        fn $name() {
+            e_backend_fds_on_body($code, $size)
+        }
+    };
+}
+// @harness props=C09 tier=quick reach=off timeout=400 bound="handle_request: SET_FEATURES whose 8-byte body segment carries 1..=2 descriptors (none on the header); body and negotiation words symbolic" stubs="vmm-sys-util raw_recvmsg/raw_sendmsg (ghost stream socket: a receive buffer without control space discards the descriptors, as vmm-sys-util does), libc::close + OwnedFd::drop, handle_alloc_error"
+e_bf!(c09_e_fds_on_body_set_features, 2, 8);
+// @harness props=C09 tier=thorough reach=off timeout=400 bound="handle_request: SET_VRING_NUM whose 8-byte body segment carries 1..=2 descriptors" stubs="vmm-sys-util raw_recvmsg/raw_sendmsg (ghost stream socket), libc::close + OwnedFd::drop, handle_alloc_error"
+e_bf!(c09_e_fds_on_body_set_vring_num, 8, 8);
 
 // =============================================================== unit level (C05, C09)
 // Private helpers of the request server called directly with fully symbolic header words.
@@ -996,10 +1051,6 @@ e_be!(e_be_set_vring_enable_short, 18, 0x9, -1, 0);
 e_be!(e_be_set_vring_enable_long, 18, 0x9, 1, 0);
 // @harness props=C04,C05,C09 tier=thorough reach=off timeout=400 bound="request 25 with the REPLY bit set (flags 0xd): must be rejected; body bytes, 0..=2 attached descriptors, three 64-bit negotiation words and handler outcome symbolic; one request" stubs="vmm-sys-util raw_recvmsg/raw_sendmsg (ghost stream socket), libc::close + OwnedFd::drop (ghost descriptor table), handle_alloc_error (assume false)"
 e_be!(e_be_set_config_replybit, 25, 0xd, 0, 4);
-// @harness props=C04,C05,C09 tier=thorough reach=off timeout=400 bound="request 25 with declared size one byte short; body bytes, 0..=2 attached descriptors, three 64-bit negotiation words and handler outcome symbolic; one request" stubs="vmm-sys-util raw_recvmsg/raw_sendmsg (ghost stream socket), libc::close + OwnedFd::drop (ghost descriptor table), handle_alloc_error (assume false)"
-e_be!(e_be_set_config_short, 25, 0x9, -1, 4);
-// @harness props=C04,C05,C09 tier=thorough reach=off timeout=400 bound="request 25 with declared size one byte long; body bytes, 0..=2 attached descriptors, three 64-bit negotiation words and handler outcome symbolic; one request" stubs="vmm-sys-util raw_recvmsg/raw_sendmsg (ghost stream socket), libc::close + OwnedFd::drop (ghost descriptor table), handle_alloc_error (assume false)"
-e_be!(e_be_set_config_long, 25, 0x9, 1, 4);
 // @harness props=C04,C05,C09 tier=thorough reach=off timeout=400 bound="request 37 with the REPLY bit set (flags 0xd): must be rejected; body bytes, 0..=2 attached descriptors, three 64-bit negotiation words and handler outcome symbolic; one request" stubs="vmm-sys-util raw_recvmsg/raw_sendmsg (ghost stream socket), libc::close + OwnedFd::drop (ghost descriptor table), handle_alloc_error (assume false)"
 e_be!(e_be_add_mem_reg_replybit, 37, 0xd, 0, 0);
 // @harness props=C04,C05,C09 tier=thorough reach=off timeout=400 bound="request 37 with declared size one byte short; body bytes, 0..=2 attached descriptors, three 64-bit negotiation words and handler outcome symbolic; one request" stubs="vmm-sys-util raw_recvmsg/raw_sendmsg (ghost stream socket), libc::close + OwnedFd::drop (ghost descriptor table), handle_alloc_error (assume false)"
